@@ -453,7 +453,7 @@ class C20(Property):
         # must be caught by construction, not by the luck of VERIF_SEED): EMPTY forms of every
         # grouping construct in every position; white space as / inside every string literal
         seen = {c["src"] for c in res}
-        fixed = c20gen.empty_matrix() + c20gen.lexeme_core(ff=self._on(F26))
+        fixed = c20gen.layout_core() + c20gen.empty_matrix() + c20gen.lexeme_core(ff=self._on(F26))
         # every statement kind the formatter deletes x what stands before it x what stands behind it
         # (240 small programs; seed C20-6)
         if all(self._on(f) for f in (F15, F21)):
